@@ -74,6 +74,10 @@ BYTE_CLASSES = {
     "hi80": b"a\x80b", "hiff": b"\xff", "latin1": b"caf\xe9", "overlong": b"\xc0\x80", "surrogate": b"\xed\xa0\x80",
     "xml": b"&<>\"'", "entity": b"&amp;&#10;&lt;", "cdata": b"]]><!--", "lead": b"  a", "trail": b"a  ", "blank": b" ", "empty": b"",
     "mixed": "\u00e9&<\t \u20ac\n".encode(),
+    # runs of ONE escaped character: the worst case of the exporters' escape buffers (each becomes 4-6 bytes), at
+    # lengths below and beyond the allocator's slack (the harness reads tokens of at most 511 bytes)
+    "quot1": b'"', "quot40": b'"' * 40, "quot200": b'"' * 200, "amp40": b"&" * 40, "amp200": b"&" * 200,
+    "lt40": b"<" * 40, "gt40": b">" * 40, "apos40": b"'" * 40, "quotx": b'""""""""""""""""""""x""""""""""',
 }
 RICH = list(BYTE_CLASSES.values())
 
